@@ -209,6 +209,26 @@ extern bg_bool bg_SYSTEM_IS_BIG_ENDIAN;
 #endif
 #define BG_FILE_WF(f) ((f).nPQ < BG_CAP && (f).nQP < BG_CAP && (f).nOther < BG_CAP && (f).tail < BG_REC_BYTES && \
                        (G_P != G_Q || (f).nQP == 0) && (f).otherBound <= ((bg_size)1 << 32))
+/* ---------------------------------------------------------------- path searches (C11, C19)
+   vector<VertexIndex>, vector<bool>: the entries at the observation points; vector<bool> also carries the
+   ghost number of true entries.  queue<VertexIndex>: a BAG (the order of a queue is not modelled: front()
+   yields some member, pop() removes that one) with ghost totals of pushes and pops. */
+typedef struct { bg_size n; VertexIndex vP, vQ; } bg_vec_u;
+typedef struct { bg_size n; bg_bool vP, vQ; bg_size nTrue; bg_size restTrue; /* true entries off the observation points */ } bg_vec_b;
+typedef struct { bg_vec_b *v; bg_size i; } bg_bitref;
+typedef struct {
+  bg_size nP, nQ, nO;                 /* members equal to G_P, to G_Q (0 when G_P == G_Q), others */
+  bg_size bound;                      /* every member < bound                                    */
+  VertexIndex cur; bg_bool curValid;  /* the member front() last returned                        */
+  bg_size pushed, popped;             /* ghost: totals since construction                        */
+  bg_size pushedP, pushedQ;           /* ghost: pushes of G_P / G_Q                              */
+} bg_queue_u;
+extern const bg_size BG_VERTEX_MAX;
+extern bg_size bg_ghost_scans;        /* ghost: neighbourhood scans of the running search (C19)  */
+extern VertexIndex bg_scratch_u;
+#define BG_QUEUE_LEN(q) ((q).nP + (q).nQ + (q).nO)
+#define BG_VECB_WF(v) ((v).nTrue == ((v).vP && (bg_size)G_P < (v).n ? 1 : 0) + ((v).vQ && G_P != G_Q && (bg_size)G_Q < (v).n ? 1 : 0) + (v).restTrue && \
+                       (v).restTrue <= (v).n && (v).nTrue <= (v).n)
 /* std::unordered_set<VertexIndex>: membership of the observation points, number of other members */
 typedef struct { bg_bool hasP, hasQ; bg_size restCount; bg_size restBound; /* every other member < restBound */ } bg_uset_u;
 /* its iterator: the elements not yet passed (the one under the cursor included); order unspecified */
@@ -216,6 +236,7 @@ typedef struct { bg_bool remP, remQ; bg_size remRest; bg_size restBound; VertexI
 #define BG_USET_LEFT(it) (((it).remP ? 1 : 0) + ((it).remQ ? 1 : 0) + (it).remRest)
 #define BG_USET_WF(s) ((s).restCount < BG_CAP && (G_P != G_Q || !(s).hasQ))
 typedef struct { bg_size n; bg_size vP, vQ; } bg_vec_sz;
+typedef struct { bg_vec_sz first; bg_vec_u second; } bg_preds;
 extern bg_size bg_scratch_sz;
 /* ghost (lemma L7): the pair of the most recent label lookup */
 typedef struct { VertexIndex src, dst; } bg_ghost_lookup_t;
